@@ -11,7 +11,8 @@ LEVEL = "other"
 TECHNIQUE = ("static analysis: sibling agreement of the token encoder/decoder (engine constant, JSON type, version variant, normalised size predicate), variant-aware value origins "
              "(Ok payloads followed through `?` / match / map_err / extracted helpers), path facts that know which variant a Result holds, forward flow of the decoder's error, "
              "arm table of deserialize_whichpage, panic census, and exhaustive abstract interpretation of page_limit over all weak orders of {limit, max, default}")
-LEVEL_TEXT = ("Decided on the MIR of the current tree (private helpers extracted by refactorings are inlined first): serialize_page_token and deserialize_page_token use the same base64 "
+LEVEL_TEXT = ("Decided on the normalised MIR of the current tree (private helpers extracted by refactorings are inlined first; Option/Result combinators — map, map_err, and_then, map_or, ok_or.. — "
+              "are switches on the receiver with the closure / fn-item body spliced in, so `a.map_err(f)?; b` and `a.map_err(f).and_then(|x| b)` are one program): serialize_page_token and deserialize_page_token use the same base64 "
               "engine constant, serde_json on the same SerializedToken<_> type and the same version variant (written as a literal or a named constant); the Ok payload of the encoder "
               "originates from Engine::encode of the Ok payload of serde_json::to_vec of SerializedToken{v, page_start: the argument}, with no `&mut` borrow on the way; the issuer's size test "
               "and the acceptor's size test are normalised to `len <= K` on their accept edges, measure the byte length of the same string (after encode / before decode), and the "
@@ -23,7 +24,7 @@ LEVEL_TEXT = ("Decided on the MIR of the current tree (private helpers extracted
               "present only the token is consulted (from_map on the raw parameters and WhichPage::First are unreachable after the Some edge of the lookup's test); page_limit is interpreted "
               "exhaustively: Some(l) -> min(l, max), None -> default, on a field of type Option<NonZeroU32> that only page_limit reads. "
               "Not decided: that serde_json/base64 invert each other for every selector value, serde's refusal of non-numeric/zero text for NonZeroU32.")
-LEVEL_NOTE = ("Trusts rustc MIR construction and const evaluation, the extractor, engine slices/dominators/helper inlining, rules/lib_c14.py (variant-aware origins, feasible paths, error flow), "
+LEVEL_NOTE = ("Trusts rustc MIR construction and const evaluation, the extractor, engine slices/dominators/helper inlining/combinator desugaring/jump threading, rules/lib_c14.py (variant-aware origins, feasible paths, error flow), "
               "the absint interpreter, and the library semantics named in the rules (base64::Engine::{encode,decode}, serde_json::{to_vec,from_slice}, str::len = byte length, "
               "Result::{map,map_err}, the `?` operator, Option::{map,unwrap_or}, cmp::min, BTreeMap::get).")
 EXPLANATION = ("SIBLINGS-AGREE over the two token functions (constants, generic arguments, normalised comparison), ORIGIN traces (lib_c14.trace: projection- and variant-sensitive backward "
@@ -31,7 +32,7 @@ EXPLANATION = ("SIBLINGS-AGREE over the two token functions (constants, generic 
                "FEASIBLE-PATH dominance (lib_c14.Feas: reachability consistent in the variant of Result/Option locals) of the accept edge of the size test over decode / Ok, forward ERROR FLOW "
                "of the decoder's Err payload to serde::de::Error::custom and the return place, TABLE of the Some/None edges of the lookup in deserialize_whichpage, CENSUS of panic sites "
                "(per function incl. closures, debug_assert! regions excluded) and of readers of PaginationParams.limit, SHAPE of the limit field, DECIDE (absint) of RequestContext::page_limit over 16 cells.")
-TRUSTED = ["rustc nightly MIR + const evaluation", "mirfacts extractor", "rules/engine.py slices, dominators, helper inlining", "rules/lib_c14.py origins / feasible paths / error flow", "rules/absint.py interpreter",
+TRUSTED = ["rustc nightly MIR + const evaluation", "mirfacts extractor", "rules/engine.py slices, dominators, helper inlining, combinator desugaring, jump threading", "rules/lib_c14.py origins / feasible paths / error flow", "rules/absint.py interpreter",
            "base64::Engine encode/decode, serde_json to_vec/from_slice, serde derive for NonZeroU32 and single-variant enums", "std Option::map/unwrap_or, Result::map/map_err, `?`, cmp::min, str::len"]
 
 SER = r"^pagination::serialize_page_token$"
@@ -184,8 +185,8 @@ def _is_parsed_field(o, jin_bb, field):
 def r1_codec(ctx, rid="C14.R1"):
     R = ctx.rule(rid, "serialize_page_token and deserialize_page_token are inverse pipelines: same base64 engine constant, serde_json on the same SerializedToken<_> type, "
                  "same version variant; the token is base64(json(SerializedToken{v, page_start: the argument})) and the decoder returns exactly the parsed page_start", floor=11)
-    fs = ctx.need_fn(ctx.ds, R, SER)
-    fd = ctx.need_fn(ctx.ds, R, DE)
+    fs = ctx.need_fn(ctx.dsn, R, SER)
+    fd = ctx.need_fn(ctx.dsn, R, DE)
     enc = _one_call(ctx, R, fs, B64_ENC, "base64 Engine::encode")
     dec = _one_call(ctx, R, fd, B64_DEC, "base64 Engine::decode")
     jout = _one_call(ctx, R, fs, JSON_OUT, "serde_json::to_vec")
@@ -274,8 +275,8 @@ def r1_codec(ctx, rid="C14.R1"):
 def r2_bound(ctx, rid="C14.R2"):
     R = ctx.rule(rid, "issuer and acceptor bound the byte length of the same string (after encode / before decode) with normalised predicates `len <= K`; the issuer's largest "
                  "accepted length does not exceed the acceptor's; the accept edges dominate Ok(token) / decoding", floor=7)
-    fs = ctx.need_fn(ctx.ds, R, SER)
-    fd = ctx.need_fn(ctx.ds, R, DE)
+    fs = ctx.need_fn(ctx.dsn, R, SER)
+    fd = ctx.need_fn(ctx.dsn, R, DE)
     enc = _one_call(ctx, R, fs, B64_ENC, "base64 Engine::encode")
     dec = _one_call(ctx, R, fd, B64_DEC, "base64 Engine::decode")
     if not (enc and dec):
@@ -329,7 +330,7 @@ def _is_custom(ctx, tr):
     if tr[0] == "fn":
         return tr[1].endswith("de::Error::custom")
     if tr[0] == "closure":
-        g = ctx.ds.F.get(tr[1])
+        g = ctx.dsn.F.get(tr[1])
         if g is None:
             return False
         o, _ = L.trace(g, (0, ()), PLUMBING)
@@ -340,21 +341,21 @@ def _is_custom(ctx, tr):
 def r3_failures(ctx, rid="C14.R3"):
     R = ctx.rule(rid, "every decoder failure is an Err(String) which deserialize_whichpage maps through serde::de::Error::custom and propagates; the query loader turns "
                  "the deserialisation error into for_bad_request (400); the decoder region contains no panic site", floor=8)
-    fd = ctx.need_fn(ctx.ds, R, DE)
-    fw = ctx.need_fn(ctx.ds, R, WHICH)
+    fd = ctx.need_fn(ctx.dsn, R, DE)
+    fw = ctx.need_fn(ctx.dsn, R, WHICH)
     ret = fd.local_ty(0)
     ctx.check(R, "decoder-error-type", bool(re.match(r"^std::result::Result<.*, std::string::String>$", ret)), "deserialize_page_token returns %s" % ret, fd, nontrivial=False)
     # census of panics: one instance per function, covering its closures (debug_assert! regions are not in the shipped build)
     for root in (fd, fw):
         pan, asserts, n = [], 0, 0
-        for g in [root] + ctx.ds.descendants(root):
+        for g in [root] + ctx.dsn.descendants(root):
             n += 1
             reach = g.reachable(0) - g.debug_only_blocks()
             pan += [t["callee"] for bb, t in g.calls(PANICS) if bb in reach]
             asserts += len([b["bb"] for b in g.blocks if b["term"]["t"] == "assert" and not b["cleanup"] and b["bb"] in reach])
         ctx.check(R, "no-panic-site:%s" % root.id, not pan and not asserts, "%d bodies (function + closures): panic-capable calls %s, checked-arithmetic/bounds asserts %d" % (n, pan, asserts), root)
     # only caller
-    cs = callers(ctx.ds, DE)
+    cs = callers(ctx.dsn, DE)
     ctx.check(R, "decoder-called-only-by-whichpage", [f.id for f, _, _ in cs] == [fw.id], "callers of deserialize_page_token: %s" % [f.id for f, _, _ in cs], fw)
     if len(cs) != 1 or cs[0][0] is not fw:
         return
@@ -441,7 +442,7 @@ def _error_ctors(ctx, f):
 def r4_token_wins(ctx, rid="C14.R4"):
     R = ctx.rule(rid, "deserialize_whichpage: on the Some arm of get(\"page_token\") only the token is consulted (deserialize_page_token of that value -> WhichPage::Next); "
                  "from_map(raw parameters) -> WhichPage::First happens only on the None arm", floor=7)
-    fw = ctx.need_fn(ctx.ds, R, WHICH)
+    fw = ctx.need_fn(ctx.dsn, R, WHICH)
     gets = [(bb, t) for bb, t in fw.live_calls(r"BTreeMap::<K, V, A>::get$|HashMap::<K, V, S>::get$") if "page_token" in [lit_str_of(fw, t["args"][1])]]
     if len(gets) != 1:
         ctx.lost(R, "map.get(\"page_token\") in deserialize_whichpage (%d)" % len(gets))
@@ -704,4 +705,146 @@ SELFTEST = [
     {"name": "enc-to-string", "kind": "benign",
      "edits": [(PG, "serde_json::to_vec(&serialized_token)", "serde_json::to_string(&serialized_token)")],
      "why": "behaviour-preserving: JSON text as String instead of Vec<u8> (same bytes)"},
+    {"name": "dec-version-method-and-and_then", "kind": "benign",
+     "edits": [(PG, """    if deserialized.v != PaginationVersion::V1 {
+        return Err(format!(
+            "failed to parse pagination token: unsupported version: {:?}",
+            deserialized.v,
+        ));
+    }
+
+    Ok(deserialized.page_start)
+}
+""", """    Ok(deserialized).and_then(SerializedToken::into_page_start)
+}
+
+impl PaginationVersion {
+    fn is_supported(self) -> bool {
+        self == PaginationVersion::V1
+    }
+}
+
+impl<PageSelector> SerializedToken<PageSelector> {
+    fn into_page_start(self) -> Result<PageSelector, String> {
+        let SerializedToken { v: version, page_start } = self;
+        if version.is_supported() {
+            Ok(page_start)
+        } else {
+            Err(format!("failed to parse pagination token: unsupported version: {:?}", version))
+        }
+    }
+}
+"""),
+               (PG, """        .map_err(|e| format!("failed to parse pagination token: {}", e))?;""",
+                """        .map_err(|e| format!("failed to parse pagination token: {}", e))
+        .and_then(|bytes| Ok(bytes))?;""")],
+     "why": "behaviour-preserving: the version test moved into a consuming method applied with `and_then(fn item)`, the comparison into `PaginationVersion::is_supported`, "
+            "an identity `and_then` step in the decode chain (normalised view: combinators are switches with the bodies spliced in, new helpers are inlined)"},
+    {"name": "enc-length-check-helper-inverted", "kind": "benign",
+     "edits": [(PG, """    if token_bytes.len() > MAX_TOKEN_LENGTH {
+        return Err(HttpError::for_internal_error(format!(
+            "serialized token is too large ({} bytes, max is {})",
+            token_bytes.len(),
+            MAX_TOKEN_LENGTH
+        )));
+    }
+
+    Ok(token_bytes)
+}
+""", """    Ok(token_bytes).and_then(check_generated_token_length)
+}
+
+fn check_generated_token_length(token: String) -> Result<String, HttpError> {
+    let token_length = token.len();
+    if token_length <= MAX_TOKEN_LENGTH {
+        return Ok(token);
+    }
+    Err(HttpError::for_internal_error(format!(
+        "serialized token is too large ({} bytes, max is {})",
+        token_length, MAX_TOKEN_LENGTH
+    )))
+}
+""")],
+     "why": "behaviour-preserving: the issuer's size test sunk into a helper applied with `and_then`, written as an inverted guard (`len <= MAX` returns Ok early)"},
+    {"name": "whichpage-guard-clause-const-key", "kind": "benign",
+     "edits": [(PG, """    match raw_params.get("page_token") {
+        Some(page_token) => {
+            let page_start = deserialize_page_token(&page_token)
+                .map_err(serde::de::Error::custom)?;
+            Ok(WhichPage::Next(page_start))
+        }
+        None => {
+            let scan_params =
+                from_map(&raw_params).map_err(serde::de::Error::custom)?;
+            Ok(WhichPage::First(scan_params))
+        }
+    }
+}
+""", """    const PAGE_TOKEN_PARAM: &str = "page_token";
+    let maybe_token = raw_params.get(PAGE_TOKEN_PARAM).map(String::as_str);
+    if let Some(token) = maybe_token {
+        return deserialize_page_token(token)
+            .map(WhichPage::Next)
+            .map_err(serde::de::Error::custom);
+    }
+    from_map(&raw_params)
+        .map(WhichPage::First)
+        .map_err(serde::de::Error::custom)
+}
+""")],
+     "why": "behaviour-preserving: the lookup key as a named constant, the token bound as Option<&str> via `.map(String::as_str)`, a guard clause with early return, "
+            "`.map(Variant).map_err(custom)` chains instead of `?` + Ok(..)"},
+    {"name": "enc-helper-bound-1024", "kind": "mutant",
+     "edits": [(PG, """    if token_bytes.len() > MAX_TOKEN_LENGTH {
+        return Err(HttpError::for_internal_error(format!(
+            "serialized token is too large ({} bytes, max is {})",
+            token_bytes.len(),
+            MAX_TOKEN_LENGTH
+        )));
+    }
+
+    Ok(token_bytes)
+}
+""", """    Ok(token_bytes).and_then(check_generated_token_length)
+}
+
+fn check_generated_token_length(token: String) -> Result<String, HttpError> {
+    let token_length = token.len();
+    if token_length <= 1024 {
+        return Ok(token);
+    }
+    Err(HttpError::for_internal_error(format!(
+        "serialized token is too large ({} bytes, max is {})",
+        token_length, MAX_TOKEN_LENGTH
+    )))
+}
+""")],
+     "expect": ["C14.R2"], "why": "twin of enc-length-check-helper-inverted with the wrong constant: tokens of 513..1024 bytes are issued and then refused"},
+    {"name": "whichpage-guard-falls-through", "kind": "mutant",
+     "edits": [(PG, """    match raw_params.get("page_token") {
+        Some(page_token) => {
+            let page_start = deserialize_page_token(&page_token)
+                .map_err(serde::de::Error::custom)?;
+            Ok(WhichPage::Next(page_start))
+        }
+        None => {
+            let scan_params =
+                from_map(&raw_params).map_err(serde::de::Error::custom)?;
+            Ok(WhichPage::First(scan_params))
+        }
+    }
+}
+""", """    const PAGE_TOKEN_PARAM: &str = "page_token";
+    let maybe_token = raw_params.get(PAGE_TOKEN_PARAM).map(String::as_str);
+    if let Some(token) = maybe_token {
+        if let Ok(page_start) = deserialize_page_token(token) {
+            return Ok(WhichPage::Next(page_start));
+        }
+    }
+    from_map(&raw_params)
+        .map(WhichPage::First)
+        .map_err(serde::de::Error::custom)
+}
+""")],
+     "expect": ["C14.R3", "C14.R4"], "why": "twin of whichpage-guard-clause-const-key: a malformed token falls through to the first-page path instead of being refused"},
 ]
